@@ -77,60 +77,179 @@ func genLoadEndpoint() string {
 		"def loadAdaptArgs : List String := " + leanStrList(adaptArgs) + "\n" + footer
 }
 
-// genCAStorage reads off modules/caddypki which storage the CA code talks to: what CA.Provision assigns to
-// ca.storage (the CA's own module, else ctx.Storage()), and the receiver of every Load / Store / Delete / Exists /
-// List / Stat call on a storage in the package's non-test files (all of them must be `ca.storage`: one operation
-// on another storage splits a CA's files over two stores — C14's TwoStores.lean runs the whole start-up program on
-// the selected storage).
+// genCAStorage reads off modules/caddypki WHICH storage the CA code talks to, by data flow rather than by spelling
+// (helper extraction / renamed locals must not move it):
+//   - Provision's selection rule: what is assigned to the receiver's `storage` field, each with the condition of the
+//     enclosing `if` (own module if configured, else ctx.Storage());
+//   - every storage operation of the package's non-test files (a call of Load/Store/Delete/Exists/List/Stat/Lock/Unlock
+//     whose first argument is a context): its receiver is RESOLVED — `<method receiver of type CA>.storage`, a local
+//     assigned from such an expression, or a parameter to which every static call site in the package passes such an
+//     expression — and the fact is the number of operations whose receiver does not resolve to the CA's storage field
+//     (must be 0), the kinds of operation that do, and how often the package asks a context for its storage
+//     (`.Storage()` calls: once, in Provision) or names caddy.DefaultStorage / certmagic.Default (never).
 func genCAStorage() string {
-	var assigns, receivers []string
-	_, f := parseFile("modules/caddypki/ca.go")
-	if fd := findFunc(f, "CA", "Provision"); fd != nil && fd.Body != nil {
-		ast.Inspect(fd.Body, func(n ast.Node) bool {
-			if as, ok := n.(*ast.AssignStmt); ok && len(as.Lhs) == len(as.Rhs) {
-				for i, l := range as.Lhs {
-					if exprText(l) == "ca.storage" {
-						assigns = append(assigns, exprText(as.Rhs[i]))
-					}
-				}
-			}
-			return true
-		})
-	}
+	var assigns []string
 	ents, _ := os.ReadDir(filepath.Join(repo, "modules", "caddypki"))
-	var names []string
+	var files []*ast.File
 	for _, e := range ents {
 		n := e.Name()
 		if !e.IsDir() && strings.HasSuffix(n, ".go") && !strings.HasSuffix(n, "_test.go") && !strings.HasSuffix(n, "_verif.go") {
-			names = append(names, n)
+			if _, pf := parseFile("modules/caddypki/" + n); pf != nil {
+				files = append(files, pf)
+			}
 		}
 	}
-	sort.Strings(names)
-	ops := map[string]bool{"Load": true, "Store": true, "Delete": true, "Exists": true, "List": true, "Stat": true}
-	for _, n := range names {
-		_, pf := parseFile("modules/caddypki/" + n)
-		if pf == nil {
-			continue
+	ops := map[string]bool{"Load": true, "Store": true, "Delete": true, "Exists": true, "List": true, "Stat": true, "Lock": true, "Unlock": true}
+	// receiver name of a method of CA ("" otherwise)
+	caRecv := func(fd *ast.FuncDecl) string {
+		if fd.Recv != nil && len(fd.Recv.List) == 1 && typeName(fd.Recv.List[0].Type) == "CA" && len(fd.Recv.List[0].Names) == 1 {
+			return fd.Recv.List[0].Names[0].Name
 		}
-		ast.Inspect(pf, func(nd ast.Node) bool {
-			ce, ok := nd.(*ast.CallExpr)
-			if !ok {
-				return true
-			}
-			se, ok := ce.Fun.(*ast.SelectorExpr)
-			if !ok || !ops[se.Sel.Name] {
-				return true
-			}
-			x := exprText(se.X)
-			if strings.Contains(strings.ToLower(x), "storage") {
-				receivers = append(receivers, n+":"+se.Sel.Name+":"+x)
-			}
-			return true
-		})
+		return ""
 	}
+	var funcs []*ast.FuncDecl
+	for _, pf := range files {
+		for _, d := range pf.Decls {
+			if fd, ok := d.(*ast.FuncDecl); ok && fd.Body != nil {
+				funcs = append(funcs, fd)
+			}
+		}
+	}
+	// isField: expression is <CA receiver>.storage, or a local of this function assigned only from such expressions
+	var resolves func(fd *ast.FuncDecl, e ast.Expr, depth int) bool
+	paramIndex := func(fd *ast.FuncDecl, name string) int {
+		i := 0
+		for _, f := range fd.Type.Params.List {
+			for _, n := range f.Names {
+				if n.Name == name {
+					return i
+				}
+				i++
+			}
+		}
+		return -1
+	}
+	resolves = func(fd *ast.FuncDecl, e ast.Expr, depth int) bool {
+		if depth > 4 {
+			return false
+		}
+		switch x := e.(type) {
+		case *ast.ParenExpr:
+			return resolves(fd, x.X, depth)
+		case *ast.SelectorExpr:
+			id, ok := x.X.(*ast.Ident)
+			return ok && x.Sel.Name == "storage" && caRecv(fd) != "" && id.Name == caRecv(fd)
+		case *ast.Ident:
+			if pi := paramIndex(fd, x.Name); pi >= 0 {
+				// a parameter: every static call site of fd in the package passes the CA's storage
+				sites, good := 0, 0
+				for _, g := range funcs {
+					ast.Inspect(g.Body, func(n ast.Node) bool {
+						ce, ok := n.(*ast.CallExpr)
+						if !ok {
+							return true
+						}
+						callee := ""
+						switch f := ce.Fun.(type) {
+						case *ast.Ident:
+							callee = f.Name
+						case *ast.SelectorExpr:
+							callee = f.Sel.Name
+						}
+						if callee == fd.Name.Name && pi < len(ce.Args) {
+							sites++
+							if resolves(g, ce.Args[pi], depth+1) {
+								good++
+							}
+						}
+						return true
+					})
+				}
+				return sites > 0 && sites == good
+			}
+			n, good := 0, 0
+			ast.Inspect(fd.Body, func(nd ast.Node) bool {
+				if as, ok := nd.(*ast.AssignStmt); ok && len(as.Lhs) == len(as.Rhs) {
+					for i, l := range as.Lhs {
+						if li, ok := l.(*ast.Ident); ok && li.Name == x.Name {
+							n++
+							if resolves(fd, as.Rhs[i], depth+1) {
+								good++
+							}
+						}
+					}
+				}
+				return true
+			})
+			return n > 0 && n == good
+		}
+		return false
+	}
+	off, storageCalls, defaults := 0, 0, 0
+	kinds := map[string]bool{}
+	for _, fd := range funcs {
+		isProvision := caRecv(fd) != "" && fd.Name.Name == "Provision"
+		var walk func(n ast.Node, conds []string)
+		walk = func(n ast.Node, conds []string) {
+			ast.Inspect(n, func(nd ast.Node) bool {
+				switch x := nd.(type) {
+				case *ast.IfStmt:
+					if x.Init != nil {
+						walk(x.Init, conds)
+					}
+					walk(x.Cond, conds)
+					walk(x.Body, append(append([]string{}, conds...), exprText(x.Cond)))
+					if x.Else != nil {
+						walk(x.Else, append(append([]string{}, conds...), "!("+exprText(x.Cond)+")"))
+					}
+					return false
+				case *ast.AssignStmt:
+					if isProvision && len(x.Lhs) == len(x.Rhs) {
+						for i, l := range x.Lhs {
+							if resolves(fd, l, 0) {
+								assigns = append(assigns, strings.Join(conds, " && ")+" => "+exprText(x.Rhs[i]))
+							}
+						}
+					}
+				case *ast.SelectorExpr:
+					t := exprText(x)
+					if t == "caddy.DefaultStorage" || t == "certmagic.Default" {
+						defaults++
+					}
+				case *ast.CallExpr:
+					se, ok := x.Fun.(*ast.SelectorExpr)
+					if !ok {
+						return true
+					}
+					if se.Sel.Name == "Storage" && len(x.Args) == 0 {
+						storageCalls++
+					}
+					if ops[se.Sel.Name] && len(x.Args) > 0 && strings.Contains(strings.ToLower(exprText(x.Args[0])), "ctx") {
+						if resolves(fd, se.X, 0) {
+							kinds[se.Sel.Name] = true
+						} else {
+							off++
+						}
+					}
+				}
+				return true
+			})
+		}
+		walk(fd.Body, nil)
+	}
+	var ks []string
+	for k := range kinds {
+		ks = append(ks, k)
+	}
+	sort.Strings(ks)
 	return header +
-		"/-- what CA.Provision (modules/caddypki/ca.go) assigns to `ca.storage`, in source order -/\n" +
+		"/-- CA.Provision (modules/caddypki/ca.go): `<enclosing if conditions> => <value>` of every assignment to the CA's storage field -/\n" +
 		"def caStorageAssigns : List String := " + leanStrList(assigns) + "\n\n" +
-		"/-- every storage operation of package caddypki (non-test files): file:operation:receiver -/\n" +
-		"def caStorageOps : List String := " + leanStrList(receivers) + "\n" + footer
+		"/-- storage operations of package caddypki whose receiver does NOT resolve (data flow) to the CA's storage field -/\n" +
+		"def caStorageOpsElsewhere : Nat := " + strconv.Itoa(off) + "\n\n" +
+		"/-- the kinds of storage operation performed on the CA's storage field -/\n" +
+		"def caStorageOpKinds : List String := " + leanStrList(ks) + "\n\n" +
+		"/-- `.Storage()` calls in the package (a context asked for its storage) and mentions of caddy.DefaultStorage / certmagic.Default -/\n" +
+		"def caContextStorageCalls : Nat := " + strconv.Itoa(storageCalls) + "\n" +
+		"def caDefaultStorageMentions : Nat := " + strconv.Itoa(defaults) + "\n" + footer
 }
